@@ -200,50 +200,78 @@ func valReadWrite(s, d, C int) (fs []F) {
 	bad := func(fn string, i int, got, want dyn.Val) []F {
 		return append(fs, core.Failf(fn+"/value", "%s <-> %s C=%d: %s of the special value %v (bits %#x) at interleaved position %d yields %v (bits %#x); values both types hold pass unchanged", tn(s), tn(d), C, fn, want, want.B, i, got, got.B))
 	}
+	// Per shift: Write, WriteStriped, Write, WriteStriped, Write, so that through either writer every
+	// special value lands on a cell holding its predecessor and on one holding its successor in the
+	// list (+0 over -0 and -0 over +0 among them); the readers fill slices pre-filled likewise.
 	for shift := 0; shift < n; shift++ {
-		at := func(i, k int) dyn.Val { return sp[(i+shift+k)%n] }
-		src := dyn.NewSl(s, C*n)
-		for i := 0; i < C*n; i++ {
-			src.Set(i, at(i, 0))
-		}
-		if r := dyn.Write(src, b); r != n {
-			return append(fs, core.Failf("Write/return", "%s -> %s C=%d: Write of %d samples into %d frames returned %d", tn(s), tn(d), C, C*n, n, r))
-		}
-		for i := 0; i < C*n; i++ {
-			if g := b.Sample(i); !valSame(g, at(i, 0)) {
-				return bad("Write", i, g, at(i, 0))
+		at := func(i, k int) dyn.Val { return sp[(i+shift+k+2*n)%n] }
+		write := func(k int) []F {
+			src := dyn.NewSl(s, C*n)
+			for i := 0; i < C*n; i++ {
+				src.Set(i, at(i, k))
 			}
-		}
-		out := dyn.NewSl(s, C*n)
-		for i := 0; i < C*n; i++ {
-			out.Set(i, at(i, 1))
-		}
-		dyn.Read(b, out)
-		for i := 0; i < C*n; i++ {
-			if g := out.Get(i); !valSame(g, at(i, 0)) {
-				return bad("Read", i, g, at(i, 0))
+			if r := dyn.Write(src, b); r != n {
+				return append(fs, core.Failf("Write/return", "%s -> %s C=%d: Write of %d samples into %d frames returned %d", tn(s), tn(d), C, C*n, n, r))
 			}
-		}
-		rows, outs := make([]dyn.Sl, C), make([]dyn.Sl, C)
-		for c := range rows {
-			rows[c], outs[c] = dyn.NewSl(s, n), dyn.NewSl(s, n)
-			for f := 0; f < n; f++ {
-				rows[c].Set(f, at(f*C+c, 2))
-				outs[c].Set(f, at(f*C+c, 3))
-			}
-		}
-		dyn.WriteStriped(s, rows, false, b)
-		for i := 0; i < C*n; i++ {
-			if g := b.Sample(i); !valSame(g, at(i, 2)) {
-				return bad("WriteStriped", i, g, at(i, 2))
-			}
-		}
-		dyn.ReadStriped(b, s, outs, false)
-		for c := range outs {
-			for f := 0; f < n; f++ {
-				if g := outs[c].Get(f); !valSame(g, at(f*C+c, 2)) {
-					return bad("ReadStriped", f*C+c, g, at(f*C+c, 2))
+			for i := 0; i < C*n; i++ {
+				if g := b.Sample(i); !valSame(g, at(i, k)) {
+					return bad("Write", i, g, at(i, k))
 				}
+			}
+			return nil
+		}
+		wstriped := func(k int) []F {
+			rows := make([]dyn.Sl, C)
+			for c := range rows {
+				rows[c] = dyn.NewSl(s, n)
+				for f := 0; f < n; f++ {
+					rows[c].Set(f, at(f*C+c, k))
+				}
+			}
+			dyn.WriteStriped(s, rows, false, b)
+			for i := 0; i < C*n; i++ {
+				if g := b.Sample(i); !valSame(g, at(i, k)) {
+					return bad("WriteStriped", i, g, at(i, k))
+				}
+			}
+			return nil
+		}
+		// the buffer holds at(i, k): both readers, into slices pre-filled with at(i, k+pre)
+		read := func(k, pre int) []F {
+			out := dyn.NewSl(s, C*n)
+			for i := 0; i < C*n; i++ {
+				out.Set(i, at(i, k+pre))
+			}
+			dyn.Read(b, out)
+			for i := 0; i < C*n; i++ {
+				if g := out.Get(i); !valSame(g, at(i, k)) {
+					return bad("Read", i, g, at(i, k))
+				}
+			}
+			outs := make([]dyn.Sl, C)
+			for c := range outs {
+				outs[c] = dyn.NewSl(s, n)
+				for f := 0; f < n; f++ {
+					outs[c].Set(f, at(f*C+c, k+pre))
+				}
+			}
+			dyn.ReadStriped(b, s, outs, false)
+			for c := range outs {
+				for f := 0; f < n; f++ {
+					if g := outs[c].Get(f); !valSame(g, at(f*C+c, k)) {
+						return bad("ReadStriped", f*C+c, g, at(f*C+c, k))
+					}
+				}
+			}
+			return nil
+		}
+		for _, step := range []func() []F{
+			func() []F { return write(0) }, func() []F { return read(0, 1) },
+			func() []F { return wstriped(1) }, func() []F { return write(0) },
+			func() []F { return wstriped(-1) }, func() []F { return write(0) }, func() []F { return read(0, -1) },
+		} {
+			if f := step(); f != nil {
+				return f
 			}
 		}
 	}
